@@ -161,10 +161,8 @@ func tokenOf(o dns.EDNS0) string {
 			return "cE"
 		case v.Address.Equal(uEaddr):
 			return "uE"
-		case v.Address.Equal(net.IP{192, 0, 2, 0}) || v.Address.Equal(net.ParseIP(pEaddr)):
-			return "pE"
 		}
-		return "ecs:" + v.Address.String()
+		return "pE" // neither the client's nor the upstream's: generated by a plugin (preset / client address)
 	case *dns.EDNS0_COOKIE:
 		switch v.Cookie {
 		case "0102030405060708":
